@@ -339,3 +339,38 @@ def c19_step(tier, seed, rundir, log):
                          "detail": f"{label}: original program -> {base}; rewritten -> {o}", "suite": "cli"})
     cov.update({"evaluations": len(outcomes), "distinct_nontrivial": len(outcomes), "samples": [f"{l}: {o}" for l, _, o in outcomes]})
     return hits, cov
+
+
+C05_DIVERGENT = [
+    ("control: the same definitions, body `0`", "T : (int -> type) = (n : int) => T n\nf : (T 0 -> int) = (x : T 0) => 0\n0\n", True),
+    ("fully annotated, well typed by the rules (`T 0` is only ever compared with itself)", "T : (int -> type) = (n : int) => T n\nf : (T 0 -> int) = (x : T 0) => 0\n(y : T 0) => f y\n", False),
+]
+
+
+def c05_step(tier, seed, rundir, log):
+    """C05 on the real binary for the one family the in-process search cannot contain: a fully annotated program
+    whose types mention a type-level definition without weak head normal form (the checker's `unify` normalises the
+    domain of the function type before it solves the fresh domain cell, and never returns)."""
+    hits, cov = [], {}
+    ok, out = build_gram(log)
+    if not ok:
+        return [{"property": "C05", "kind": "gram-does-not-build", "input": "", "detail": out[-400:], "suite": "cli"}], cov
+    d = os.path.join(rundir, "cli05")
+    os.makedirs(d, exist_ok=True)
+    samples = []
+    for label, src, _control in C05_DIVERGENT:
+        path = os.path.join(d, "c05.g")
+        open(path, "w").write(src)
+        try:
+            p = subprocess.run(["bash", "-c", f"ulimit -v 2000000; exec {GRAM} check {path}"], stdout=subprocess.PIPE, stderr=subprocess.PIPE,
+                               timeout=20, env=dict(os.environ, NO_COLOR="1"))
+            o = f"exit {p.returncode}: {(p.stderr or p.stdout)[:100]!r}"
+            accepted = p.returncode == 0
+        except subprocess.TimeoutExpired:
+            o, accepted = "no answer within 20 s", False
+        samples.append(f"{label}: {o}")
+        if not accepted:
+            hits.append({"property": "C05", "kind": "fully-annotated-well-typed-program-not-accepted-by-the-real-binary", "input": src,
+                         "detail": f"{label}: gram check -> {o}", "suite": "cli"})
+    cov.update({"evaluations": len(samples), "distinct_nontrivial": len(samples), "samples": samples})
+    return hits, cov
